@@ -1856,7 +1856,12 @@ StorageReflectSession :: CloneDataNodeSubtree(const DataNode & node, const Strin
          for (uint32 i=0; i<idxLen; i++)
          {
             const String & nodeName = (*index)[i]()->GetNodeName();
-            if (clone->HasChild(nodeName)) MRETURN_ON_ERROR(clone->InsertIndexEntryAt(writeIdxCounter++, this, nodeName));
+            if (clone->HasChild(nodeName))
+            {
+               (void) clone->RemoveIndexEntry(nodeName, this);  // in case the destination node already had (nodeName) in its index:  we don't want to list it twice
+               MRETURN_ON_ERROR(clone->InsertIndexEntryAt(writeIdxCounter++, this, nodeName));
+               _indexingPresent = true;  // disable optimization in GetDataCallback()
+            }
          }
       }
       else return B_DATA_NOT_FOUND;
